@@ -253,6 +253,12 @@ pub fn run(out: &mut Out, seed: u64, thorough: bool, replay: Option<&str>) {
                 out.run(&mut s, format!("tus {} {} {}", est, expected_dk(est), avg));
             }
         }
+        // … and estimates around the size of this universe: the first node at or beyond the expected distance
+        // then sits at every index in turn, the 20th included
+        let hi = (3 * uni.nodes.len()).min(400);
+        for est in 0..=hi {
+            out.run(&mut s, format!("tus {} {} {}", est, expected_dk(est), est % 2));
+        }
         out.count("random-case");
         out.mark_distinct(fnv(hex(&target).as_bytes()) ^ n as u64);
         if c == 0 {
